@@ -160,6 +160,45 @@ example : applyBin gtSample .imp (var 0) (leaf .f) = node 0 (leaf .f) (leaf .u) 
   tdd_apply_unique gtSample .imp (var 0) (leaf .f) _ (by decide) (by decide) (by decide)
     (fun σ => by simp only [eval, BinOp.sem, var]; cases h : σ 0 <;> rfl)
 
+/-! ## reordering -/
+
+/-- **Rebuilding a diagram for a new variable order preserves its function up to the renaming of
+levels**: under every assignment `σ` of the new levels, the rebuilt tree has the value the old tree
+has under `σ ∘ π` (`π`: old level ↦ new level) — for all trees and all maps `π`. This is the
+specified effect of `set_var_order` on every live handle (C08). -/
+theorem tdd_reorder_sem (π : Nat → Nat) (σ : Nat → Tri) (t : TD) :
+    eval σ (reorderTree π t) = eval (fun l => σ (π l)) t :=
+  reorderTree_sem π σ t
+
+/-- **… and yields a normal form** (ordered and reduced for the new order) whenever the old tree is
+one and `π` does not identify two of its levels (a permutation never does). -/
+theorem tdd_reorder_nf (π : Nat → Nat) (t : TD) (hn : NF t) (hi : InjOn π t) :
+    NF (reorderTree π t) :=
+  reorderTree_nf π t hn hi
+
+/-- **… so it is *the* canonical diagram of that function for the new order**: any normal form with
+the renamed function is this tree (`tdd_canonical`). Whatever sequence of level swaps the real code
+performs, a correct hash-consed result unfolds to exactly `reorderTree π t`. -/
+theorem tdd_reorder_canonical (π : Nat → Nat) (t r : TD) (hn : NF t) (hi : InjOn π t) (hr : NF r)
+    (h : ∀ σ, eval σ r = eval (fun l => σ (π l)) t) : r = reorderTree π t :=
+  canonical _ _ hr (reorderTree_nf π t hn hi) (fun σ => by rw [reorderTree_sem, h])
+
+/-- non-vacuity: swapping the two levels of `(l0: x1, U, F)` (a function depending on both levels,
+so the rewriting case of `level_swap`) gives `(l0: (l1: T,U,F), (l1: U,U,F), (l1: F,U,F))`. -/
+example :
+    reorderTree (fun l => 1 - l) (node 0 (var 1) (leaf .u) (leaf .f))
+      = node 0 (node 1 (leaf .t) (leaf .u) (leaf .f)) (node 1 (leaf .u) (leaf .u) (leaf .f))
+          (node 1 (leaf .f) (leaf .u) (leaf .f)) := by
+  symm
+  apply tdd_reorder_canonical _ _ _ (by decide) _ (by decide)
+  · intro σ
+    simp only [eval, var]
+    cases σ 0 <;> cases σ 1 <;> rfl
+  · intro i j hi hj h
+    simp only [inTD, var, or_false] at hi hj
+    dsimp only at h
+    omega
+
 /-! ## constants, variables, evaluation, cofactors -/
 
 /-- **`f`, `t`, `u` evaluate to false, true and unknown under every assignment** (the trait
